@@ -412,7 +412,7 @@ pub fn check() -> Check {
     Check {
         id: "C17",
         level: "exploration",
-        rule: "base histories of 120 calls from the single-instance driver (crafted/corrupted datagrams, timers in/out of order, every API method) executed three times on fresh instances with the same seed: twice verbatim (determinism) and once with 1..=5 rejected inputs of 12 classes inserted at random points (class verified by the harness's own staged parse); every undisturbed call must produce identical results, datagrams, timers, notifications and post-state, and the RNG position is compared through 8 further random-dependent calls. Non-trivial: at least one insertion; distinct by (case, classes, points).",
+        rule: "base histories of 120 calls from the single-instance driver (crafted/corrupted datagrams, timers in/out of order, every API method) executed three times on fresh instances with the same seed: twice verbatim (determinism) and once with 1..=5 rejected inputs of 12 classes inserted at random points (class verified by the harness's own staged parse); every undisturbed call must produce identical results, datagrams, timers, notifications and post-state, and the RNG position is compared through 8 further random-dependent calls. Non-trivial: at least one insertion; distinct by (case, classes, points). 'wrap': 270..600 epoch changes on one instance; the real timers of the epochs just ended are handed back while idle and while active again and must have no effect at all.",
         assumptions: &["the harness handler/codec are deterministic"],
         required: &["twin_runs_completed", "inserted/StaleTimer", "inserted/Undecodable", "inserted/NotForUs", "inserted/InvalidConfig"],
         workloads: vec![
